@@ -50,8 +50,11 @@ def compile_entities(ents, scratch, per_module=8, tag="g"):
     mods = []
     for i in range(0, len(ents), per_module):
         chunk = ents[i:i + per_module]
-        mods.append({"name": f"{tag}_{i // per_module:04d}", "source": ADL.module_source(chunk),
-                     "entities": [e["name"] for e in chunk]})
+        plain = [e for e in chunk if "source_override" not in e]
+        src = ADL.module_source(plain) if plain else ADL.HEADER
+        # designs whose compiled source is hand-written (library components); the ADL is then the reference description
+        src += "\n".join(e["source_override"] for e in chunk if "source_override" in e)
+        mods.append({"name": f"{tag}_{i // per_module:04d}", "source": src, "entities": [e["name"] for e in chunk]})
     return compile_modules(mods, scratch)
 
 
